@@ -149,7 +149,7 @@ def run_correspondence(ck, consts):
                 c["id"] = 1000000 + i
                 c["coq"] = re.sub(r"^Case \d+ ", "Case %d " % c["id"], c["coq"])
                 if c.get("coqj"):
-                    c["coqj"] = re.sub(r"^JCase \(Case \d+ ", "JCase (Case %d " % c["id"], c["coqj"])
+                    c["coqj"] = re.sub(r"^([JD])Case \(Case \d+ ", r"\1Case (Case %d " % c["id"], c["coqj"])
                 c["class"] = "corpus:" + c["class"]
             cases += cs
     if ck.replay:
@@ -167,7 +167,7 @@ def run_correspondence(ck, consts):
                     c["id"] = 2000000 + i
                     c["coq"] = re.sub(r"^Case \d+ ", "Case %d " % c["id"], c["coq"])
                     if c.get("coqj"):
-                        c["coqj"] = re.sub(r"^JCase \(Case \d+ ", "JCase (Case %d " % c["id"], c["coqj"])
+                        c["coqj"] = re.sub(r"^([JD])Case \(Case \d+ ", r"\1Case (Case %d " % c["id"], c["coqj"])
                 cases += cs
     n = ck.n(400, 6000)
     outp = os.path.join(ck.work, "decode.jsonl")
@@ -176,9 +176,9 @@ def run_correspondence(ck, consts):
         ck.obligation("harness decode ran", False, out[-1500:])
         return
     cases += load_jsonl(outp)
-    # more Loki JSON documents (two of three damaged by one edit) for the walk model
+    # more small Loki JSON and Datadog log documents (two of three damaged by one edit) for the walk models
     outp2 = os.path.join(ck.work, "lokidoc.jsonl")
-    rc, out = ck.go_run("decode", ["--seed", ck.seed, "--n", ck.n(240, 6000), "--out", outp2], timeout=600, env_extra=dict(henv, C03_ONLY="lokidoc"))
+    rc, out = ck.go_run("decode", ["--seed", ck.seed, "--n", ck.n(400, 8000), "--out", outp2], timeout=600, env_extra=dict(henv, C03_ONLY="lokidoc"))
     if rc != 0:
         ck.obligation("harness decode (Loki JSON documents) ran", False, out[-1500:])
         return
@@ -199,18 +199,25 @@ def run_correspondence(ck, consts):
     # Loki JSON bodies travel with their document tree and are evaluated through the walk of model/LokiJson.v
     jcases = [c for c in cases if c.get("coqj")]
     shs = [("plain", ks) for ks in shards([c for c in cases if not c.get("coqj")])] + \
-          [("tree", ks) for ks in shards([dict(c, coq=c["coqj"]) for c in jcases], max_n=80)]
+          [("jcase", ks) for ks in shards([dict(c, coq=c["coqj"]) for c in jcases if c.get("tree_kind") == "jcase"], max_n=80)] + \
+          [("dcase", ks) for ks in shards([dict(c, coq=c["coqj"]) for c in jcases if c.get("tree_kind") == "dcase"], max_n=200)]
 
     def eval_shard(ix):
         i, (kind, ks) = ix
         if kind == "plain":
             return eval_cases(ck, "C03_decode_%d" % i, ks)
-        m, v, out = eval_two(ck, "C03_decodej_%d" % i, JHEADER, "jcase", ks, "jc_check_all")
+        if kind == "jcase":
+            m, v, out = eval_two(ck, "C03_decodej_%d" % i, JHEADER, "jcase", ks, "jc_check_all")
+        else:
+            m, v, out = eval_two(ck, "C03_decoded_%d" % i, DHEADER, "dcase", ks, "dc_check_all")
         return m, v, ([] if m is not None else None), out
     with ThreadPoolExecutor(max_workers=4) as ex:
         results = list(ex.map(eval_shard, enumerate(shs)))
-    ck.extra["loki_json_documents_walked_in_the_model"] = {"written": sum(1 for c in jcases if not c.get("damage")), "damaged": sum(1 for c in jcases if c.get("damage")),
-                                                            "damaged_and_rejected": sum(1 for c in jcases if c.get("damage") and c["obs"]["err"])}
+    for kind, key in (("jcase", "loki_json_documents_walked_in_the_model"), ("dcase", "datadog_log_documents_walked_in_the_model")):
+        ks = [c for c in jcases if c.get("tree_kind") == kind]
+        ck.extra[key] = {"written": sum(1 for c in ks if not c.get("damage")), "damaged": sum(1 for c in ks if c.get("damage")),
+                         "damaged_and_rejected": sum(1 for c in ks if c.get("damage") and c["obs"]["err"]),
+                         "free_tags_text": sum(1 for c in ks if "free-tags-text" in c["class"])}
     for m, v, u, out in results:
         if m is None:
             ck.obligation("decode cases evaluated inside Coq", False, out[-2500:])
@@ -335,6 +342,10 @@ def run_correspondence(ck, consts):
 
 JHEADER = ("From Coq Require Import List ZArith NArith Bool String Uint63.\n"
            "From Qryn Require Import model.Decode model.LokiLabels model.LokiTime model.LokiJson.\n"
+           "Import ListNotations.\nOpen Scope string_scope.\nOpen Scope Z_scope.\n")
+
+DHEADER = ("From Coq Require Import List ZArith NArith Bool String Uint63.\n"
+           "From Qryn Require Import model.Decode model.LokiLabels model.LokiTime model.LokiJson model.DatadogJson.\n"
            "Import ListNotations.\nOpen Scope string_scope.\nOpen Scope Z_scope.\n")
 
 LHEADER = ("From Coq Require Import List ZArith NArith Bool String Uint63.\n"
@@ -540,7 +551,7 @@ def run(ck):
     if not ck.coq_props():
         # a proof or a constant no longer fits the source: the models may still build, and a concrete failing input is worth more
         # than the broken proof alone
-        ok, out = ck.coq_make(["model/LokiJson.vo"])
+        ok, out = ck.coq_make(["model/DatadogJson.vo"])
         if not ok:
             return
     if not ck.quick():
